@@ -434,7 +434,8 @@ def handle (j : Json) : R Json := do
       ("caffeinate.FLAGS_NO_ARG", l Generated.H.caffeinate_FLAGS_NO_ARG), ("caffeinate.FLAGS_WITH_ARG", l Generated.H.caffeinate_FLAGS_WITH_ARG),
       ("fd.EXEC_FLAGS", l Generated.H.fd_EXEC_FLAGS), ("script.FLAGS_WITH_ARG", l Generated.H.script_FLAGS_WITH_ARG),
       ("script.FLAGS_NO_ARG", l Generated.H.script_FLAGS_NO_ARG), ("docker.EXEC_FLAGS_WITH_ARG", l Generated.H.docker_EXEC_FLAGS_WITH_ARG),
-      ("shell.COMMANDS", l Generated.H.shell_COMMANDS),
+      ("shell.COMMANDS", l Generated.H.shell_COMMANDS), ("uv.RUN_FLAGS_WITH_ARG", l Generated.H.uv_RUN_FLAGS_WITH_ARG),
+      ("tar.OPERATIONS", d Generated.H.tar_OPERATIONS),
       ("docker.EXEC_SHORT_FLAGS_WITH_ARG", Json.str Generated.H.docker_EXEC_SHORT_FLAGS_WITH_ARG),
       ("xargs.FLAG_CONTEXT", d Generated.H.xargs_FLAG_CONTEXT), ("find.FLAG_CONTEXT", d Generated.H.find_FLAG_CONTEXT),
       ("fd.FLAG_DISPLAY", d Generated.H.fd_FLAG_DISPLAY),
@@ -513,6 +514,7 @@ def handle (j : Json) : R Json := do
       | "shell" => W.shellClassify ts | "env" => W.envClassify ts | "xargs" => W.xargsClassify ts
       | "find" => W.findClassify ts | "fd" => W.fdClassify ts | "arch" => W.archClassify ts
       | "caffeinate" => W.caffeinateClassify ts | "script" => W.scriptClassify ts
+      | "uvrun" => W.uvRunClassify ts | "tar" => W.tarClassify ts
       | _ => W.ask "<no-model>"
     return Json.mkObj [("action", Json.str c.action), ("inner", optStrJson c.innerCommand), ("desc", optStrJson c.description), ("remote", Json.bool c.remote)]
   | "execinner" =>
